@@ -1,0 +1,38 @@
+//go:build verif
+// +build verif
+
+package tcp
+
+// Contracts for the deductive verifier in /verif (govc). Comment-only file.
+
+//@ func copyBuffer
+//@   prop C05
+//@   callpre io.CopyBuffer @copies-src-to-dst-with-a-non-empty-buffer arg0 == dst && arg1 == src && len(arg2) > 0
+//@   modifies all, relayseq, relaycopyat, relaycopydst, relaycopysrc
+//@   ghostdef relayseq == old(relayseq) + 1 && relaycopyat == relayseq && relaycopydst == dst && relaycopysrc == src
+
+//@ func closeWrite
+//@   prop C05
+//@   modifies all, relayseq, relaycwat, relaycwconn
+//@   ghostdef relayseq == old(relayseq) + 1 && relaycwat == relayseq && relaycwconn == conn
+
+//@ func closeRead
+//@   prop C05
+//@   modifies all, relayseq, relaycrat, relaycrconn
+//@   ghostdef relayseq == old(relayseq) + 1 && relaycrat == relayseq && relaycrconn == conn
+
+//@ func (*tcpProc).pipeConn
+//@   prop C05
+//@   requires p != nil && src != nil && dst != nil
+//@   modifies all, relayseq, relaycopyat, relaycopydst, relaycopysrc, relaycwat, relaycwconn, relaycrat, relaycrconn
+//@   ensures @copy-then-half-close-the-destination-then-the-source old(relayseq) < relaycopyat && relaycopyat < relaycwat && relaycwat < relaycrat && relayseq == old(relayseq) + 3
+//@   ensures @right-direction relaycopydst == dst && relaycopysrc == src && relaycwconn == dst && relaycrconn == src
+
+//@ func (*tcpProc).HandleConn
+//@   prop C05 C06 C20
+//@   requires p != nil
+//@   callpre pipeConn @backend-to-client arg1 != arg2
+
+//@ func (*tcpProc).HandleConn$3
+//@   prop C05
+//@   callpre pipeConn @client-to-backend arg1 != arg2
